@@ -82,7 +82,7 @@ def canon(exec_lines):
     return '\n'.join(out)
 
 
-def run_net(prop, tier, seed, profiles, rule, assumptions, models=(), level='model_checking', dlimpl=(), satimpl=None, lraimpl=None):
+def run_net(prop, tier, seed, profiles, rule, assumptions, models=(), level='model_checking', dlimpl=(), satimpl=None, lraimpl=None, cache=None):
     """profiles: list of (profile, executions_quick, executions_thorough, max_ops)"""
     ev = Evidence(prop, tier, seed, level)
     ev.cov['rule'] = rule
@@ -132,6 +132,20 @@ def run_net(prop, tier, seed, profiles, rule, assumptions, models=(), level='mod
             vlib.run([drv, 'replay', f, outp], timeout=300, check=False)
             vlib.validate_batch(ev, prop, 'NetworkTrace', vlib.read_lines(outp), signature, 'corpus-' + os.path.basename(f)[4:-7],
                                 timeout=600, env={'VPROP': prop}, describe_fn=describe)
+        # the expression cache on networks with thousands of variables (CacheTrace)
+        if cache and not ev.violations:
+            nex = cache[0] if tier == 'quick' else cache[1]
+            path = os.path.join(rd, 'cache.ndjson')
+            rc, out = vlib.run([drv, 'gen', 'cache', str(seed), str(nex), path, '10'], timeout=1200, check=False)
+            if rc not in (0, 3) and not (rc < 0 or rc >= 128):
+                raise vlib.CheckError('net_driver (cache) failed rc=%d: %s' % (rc, out[-2000:]))
+            cl = vlib.read_lines(path)
+            if rc != 0 and not (cl and '"e":"abort"' in cl[-1]):
+                cl.append(json.dumps({'e': 'abort', 'what': 'driver killed, rc=%d' % rc}, separators=(',', ':')))
+            ev.cov['cache_requests'] = sum(1 for x in cl if '"e":"new_' in x and '"e":"new_var"' not in x)
+            vlib.validate_batch(ev, prop, 'CacheTrace', cl,
+                                lambda e_, ex, i, r=None: 'cache:%s:%s' % (e_.get('e'), r['contracts'][-1][0] if r and r.get('contracts') else 'Structure'),
+                                'cache', timeout=1700)
         # every transition of the implementation-shaped difference-logic model, replayed on the library
         for real in dlimpl:
             if ev.violations:
